@@ -46,6 +46,10 @@ def run(ctx):
     # lemma 1 for the context-dependent literals (OpConstant / OpSpecConstant / OpSwitch): the parser keeps every word it reads
     import c10
     c10.literal_lemmas(ctx, q, S, rp)
+    # ... and for the enumerant / bit-mask operands: every typed decoder request returns exactly the word it read (all 2^32 words), so
+    # an accepted word is never altered on the way into the module (C11's MIR leg)
+    import c11
+    ctx.extra["typed_requests_decided_from_mir"] = c11.typed_requests_mir(ctx)
     P = tables.parse_operand_arms()
     c02.native_roundtrip(ctx, S, rp, P)
     c06.native_module_roundtrip(ctx, rp, loaded_only=True)
